@@ -44,4 +44,78 @@ public:
 inline int32_t CSend(const uint8_t * buf, uint32_t n, void * arg) {SimStream * s = (SimStream *) arg; int64_t r = s->Write(buf, n); return (int32_t) r;}
 inline int32_t CRecv(uint8_t * buf, uint32_t n, void * arg) {SimStream * s = (SimStream *) arg; int64_t r = s->Read(buf, n); return (int32_t) r;}
 
+// Builds a UMessage (C micro codec, no dynamic allocation: everything lives in caller-supplied buffers) with the same content as a C++ Message
+// of the common type repertoire.  Child Messages are built in buffers kept alive in (scratch).  Returns false if some field cannot be expressed.
+inline bool FillUMessage(UMessage * um, const muscle::Message & m, std::vector<std::vector<uint8_t> > & scratch, int depth = 0)
+{
+   using namespace muscle;
+   for (MessageFieldNameIterator it(m); it.HasData(); it++)
+   {
+      const char * fn = it.GetFieldName()(); uint32 tc = 0, n = 0;
+      if (m.GetInfo(it.GetFieldName(), &tc, &n).IsError()) return false;
+      c_status_t r = CB_NO_ERROR;
+      switch(tc)
+      {
+         case B_BOOL_TYPE:   {std::vector<UBool> v(n); for (uint32 i=0; i<n; i++) {bool b = false; (void) m.FindBool(fn, i, b); v[i] = b ? UTrue : UFalse;} r = UMAddBools(um, fn, n ? &v[0] : NULL, n);} break;
+         case B_INT8_TYPE:   {std::vector<int8> v(n);  for (uint32 i=0; i<n; i++) (void) m.FindInt8(fn, i, v[i]);  r = UMAddInt8s(um, fn, n ? &v[0] : NULL, n);} break;
+         case B_INT16_TYPE:  {std::vector<int16> v(n); for (uint32 i=0; i<n; i++) (void) m.FindInt16(fn, i, v[i]); r = UMAddInt16s(um, fn, n ? &v[0] : NULL, n);} break;
+         case B_INT32_TYPE:  {std::vector<int32> v(n); for (uint32 i=0; i<n; i++) (void) m.FindInt32(fn, i, v[i]); r = UMAddInt32s(um, fn, n ? &v[0] : NULL, n);} break;
+         case B_INT64_TYPE:  {std::vector<int64> v(n); for (uint32 i=0; i<n; i++) (void) m.FindInt64(fn, i, v[i]); r = UMAddInt64s(um, fn, n ? &v[0] : NULL, n);} break;
+         case B_FLOAT_TYPE:  {std::vector<float> v(n); for (uint32 i=0; i<n; i++) (void) m.FindFloat(fn, i, v[i]); r = UMAddFloats(um, fn, n ? &v[0] : NULL, n);} break;
+         case B_DOUBLE_TYPE: {std::vector<double> v(n); for (uint32 i=0; i<n; i++) (void) m.FindDouble(fn, i, v[i]); r = UMAddDoubles(um, fn, n ? &v[0] : NULL, n);} break;
+         case B_POINT_TYPE:  {std::vector<UPoint> v(n); for (uint32 i=0; i<n; i++) {Point p; (void) m.FindPoint(fn, i, p); v[i].x = p.x(); v[i].y = p.y();} r = UMAddPoints(um, fn, n ? &v[0] : NULL, n);} break;
+         case B_RECT_TYPE:   {std::vector<URect> v(n); for (uint32 i=0; i<n; i++) {Rect q; (void) m.FindRect(fn, i, q); v[i].left = q.left(); v[i].top = q.top(); v[i].right = q.right(); v[i].bottom = q.bottom();} r = UMAddRects(um, fn, n ? &v[0] : NULL, n);} break;
+         case B_STRING_TYPE: {std::vector<const char *> v(n); std::vector<std::string> keep(n); for (uint32 i=0; i<n; i++) {const String * sp = NULL; (void) m.FindString(fn, i, &sp); keep[i] = sp ? std::string(sp->Cstr()) : std::string(); v[i] = keep[i].c_str();} r = UMAddStrings(um, fn, n ? &v[0] : NULL, n);} break;
+         case B_MESSAGE_TYPE:
+         {
+            if (depth > 4) return false;
+            std::vector<UMessage> kids(n);
+            for (uint32 i=0; i<n; i++)
+            {
+               MessageRef sub; if (m.FindMessage(fn, i, sub).IsError()) return false;
+               scratch.push_back(std::vector<uint8_t>(sub()->FlattenedSize() + 64));
+               std::vector<uint8_t> & buf = scratch.back();
+               if (UMInitializeToEmptyMessage(&kids[i], &buf[0], (uint32) buf.size(), sub()->what) != CB_NO_ERROR) return false;
+               if (!FillUMessage(&kids[i], *sub(), scratch, depth+1)) return false;
+            }
+            r = UMAddMessages(um, fn, n ? &kids[0] : NULL, n);
+         }
+         break;
+         default: return false;
+      }
+      if (r != CB_NO_ERROR) return false;
+   }
+   return true;
+}
+
+// Touches every item of a (possibly hostile) UMessage through the public read API: the C02 well-formedness walk for the micro codec
+inline void WalkUMessage(const UMessage * um, int depth = 0)
+{
+   if ((UMIsMessageValid(um) == UFalse)||(depth > 16)) return;
+   (void) UMGetWhatCode(um); (void) UMGetNumFields(um); (void) UMGetFlattenedSize(um);
+   UMessageFieldNameIterator it; UMIteratorInitialize(&it, um, B_ANY_TYPE);
+   for (int guard=0; guard<100000; guard++)
+   {
+      uint32 n = 0, tc = 0; const char * fn = UMIteratorGetCurrentFieldName(&it, &n, &tc); if (fn == NULL) break;
+      volatile uint64_t sink = strlen(fn);
+      for (uint32 i=0; (i<n)&&(i<100000); i++) switch(tc)
+      {
+         case B_BOOL_TYPE:   {UBool b; if (UMFindBool(um, fn, i, &b) == CB_NO_ERROR) sink += (uint64_t) b;} break;
+         case B_INT32_TYPE:  {int32 v; if (UMFindInt32(um, fn, i, &v) == CB_NO_ERROR) sink += (uint64_t) v;} break;
+         case B_INT64_TYPE:  {int64 v; if (UMFindInt64(um, fn, i, &v) == CB_NO_ERROR) sink += (uint64_t) v;} break;
+         case B_INT16_TYPE:  {int16 v; if (UMFindInt16(um, fn, i, &v) == CB_NO_ERROR) sink += (uint64_t) v;} break;
+         case B_INT8_TYPE:   {int8 v;  if (UMFindInt8(um, fn, i, &v) == CB_NO_ERROR) sink += (uint64_t) v;} break;
+         case B_FLOAT_TYPE:  {float v; if (UMFindFloat(um, fn, i, &v) == CB_NO_ERROR) sink += (v > 0) ? 1 : 0;} break;
+         case B_DOUBLE_TYPE: {double v; if (UMFindDouble(um, fn, i, &v) == CB_NO_ERROR) sink += (v > 0) ? 1 : 0;} break;
+         case B_POINT_TYPE:  {UPoint v; if (UMFindPoint(um, fn, i, &v) == CB_NO_ERROR) sink += (v.x > 0) ? 1 : 0;} break;
+         case B_RECT_TYPE:   {URect v; if (UMFindRect(um, fn, i, &v) == CB_NO_ERROR) sink += (v.left > 0) ? 1 : 0;} break;
+         case B_STRING_TYPE: {const char * sp = UMGetString(um, fn, i); if (sp) sink += strlen(sp);} break;
+         case B_MESSAGE_TYPE:{UMessage sub; if (UMFindMessage(um, fn, i, &sub) == CB_NO_ERROR) WalkUMessage(&sub, depth+1);} break;
+         default:            {const void * d = NULL; uint32 nb = 0; if ((UMFindData(um, fn, tc, i, &d, &nb) == CB_NO_ERROR)&&(d)) {const uint8_t * b = (const uint8_t *) d; for (uint32 k=0; k<nb; k++) sink += b[k];}} break;
+      }
+      (void) sink;
+      UMIteratorAdvance(&it);
+   }
+}
+
 } // namespace vs
